@@ -183,4 +183,24 @@ CHECKS["C01"] = {
     ],
 }
 
+CHECKS["C05"] = {
+    "pkg": "./checks/c05",
+    "level": "exploration",
+    "rule": "conservation: generated chain histories (C01 grammar weighted to value-moving contracts, boxes, candidate deposits, gas-payer transactions), 1..3 deputies, 1..5 blocks; rewards: terms of 8 blocks with a 2 block interim, "
+            "10..19 blocks, founder transactions setting the term reward (values 0..999999 LEMO + dust, also inside the reward block, also over the modification limit), candidate registration / unregistration so that deposit refunds fall on reward blocks. "
+            "Per block, from the parent state read while the parent is still head and the block state, over every address named in any transaction or change log: sum of balances grows by at most the reference reward "
+            "(term reward split by votes, equal split without votes, each share rounded down to whole LEMO) plus the known box surplus computed from the packaged block; it shrinks only if a contract self-destructed in the block and by no more than such contracts could hold; "
+            "no negative balance; gasUsed <= gasLimit per tx and sub tx; header gas = sum; a block that packaged nothing changes no balance; single-transfer blocks: every address changes by exactly -amount / +amount / -fee / +fee. "
+            "non-trivial = block with a box, a candidate transaction, a contract call/creation, a reward or a self-destruct; distinct by history digest.",
+    "level_text": "Invariant checking over generated multi-block histories with an independent ledger computation per block; exploration bounded by the grammar and history length.",
+    "level_note": "Trusted: the address universe (every transaction party and every address in a change log, harvested from a trial assembly before the block is mined); the reward table is read back from chain state as configuration; "
+                  "burn bound is an upper bound, exactness is only demanded for single-transfer blocks.",
+    "technique": "rapid-generated histories checked against a ledger invariant and a reference reward formula",
+    "assumptions": ["LEMO held by addresses that never appear in a transaction or change log cannot change", "all generated transactions use one gas price"],
+    "units": [
+        {"name": "conservation", "test": "TestC05Conservation", "quick": {"checks": 400, "shards": 4, "timeout": 900}, "thorough": {"checks": 3000, "shards": 12, "timeout": 3400}},
+        {"name": "rewards", "test": "TestC05Rewards", "quick": {"checks": 100, "shards": 4, "timeout": 900}, "thorough": {"checks": 600, "shards": 12, "timeout": 3400}},
+    ],
+}
+
 NOT_APPLICABLE = {}
